@@ -251,6 +251,18 @@ func c03Kind(c *CaseC03) string {
 }
 
 func sweepC03(tier string, emit func(*CaseC03)) {
+	// round list lengths: n different boxes, converted at their own zooms (identity), one level out, and one level in
+	for i, n := range roundSizes {
+		if tier == "quick" && i%3 != 1 {
+			continue
+		}
+		emit(&CaseC03{Boxes: rowBoxes(n, 7, 5), H: 7, V: 5})
+		emit(&CaseC03{Boxes: rowBoxes(n, 7, 5), H: 6, V: 4})
+		emit(&CaseC03{Boxes: rowBoxes(n, 7, 7), H: 7, V: 7, Spatial: true})
+		if n <= 1025 {
+			emit(&CaseC03{Boxes: rowBoxes(n, 7, 5), H: 7, V: 6})
+		}
+	}
 	if tier != "quick" {
 		// outputs beyond 2^20 IDs (implementations may switch strategy with size): partially overlapping inputs
 		// (crossing zooms), nested inputs and a repeated entry
